@@ -19,6 +19,7 @@ pub async fn run_other(kind: &str, case: &Value) -> Value {
         "creds" => run_creds(case).await,
         "demux" => run_demux(case).await,
         "drop-close" => run_drop_close(case).await,
+        "big-request" => run_big_request(case).await,
         _ => json!({"verdict": "harness-error", "why": format!("unknown case kind {kind}")}),
     }
 }
@@ -673,4 +674,120 @@ async fn run_drop_close(case: &Value) -> Value {
         symptoms.push("survivor-did-not-get-its-reply-after-the-close-future-was-dropped");
     }
     json!({"verdict": if symptoms.is_empty() { "held" } else { "violated" }, "symptoms": symptoms, "client": out, "reply_could_be_sent": sent})
+}
+
+
+/// C10 over the real transports: a request far larger than any pipe or socket buffer, then a small
+/// one; the peer must receive each as one well-formed document followed by one delimiter, with the
+/// payload unchanged.
+async fn run_big_request(case: &Value) -> Value {
+    use netconf::message::rpc::operation::junos::load_configuration::{Config, Merge, Text};
+    use netconf::message::rpc::operation::junos::LoadConfiguration;
+    let tr = Tr::parse(case["tr"].as_str().unwrap_or("tls")).unwrap();
+    let size = case["size"].as_u64().unwrap_or(100_000) as usize;
+    let hello = hello_bytes(&["urn:ietf:params:netconf:base:1.0", "http://xml.juniper.net/netconf/junos/1.0"]);
+    let mut payload = String::with_capacity(size + 64);
+    let unit = case["unit"].as_str().unwrap_or("set policy-options <&> \"q\" \u{e9}\u{65e5} ]]> ;\n");
+    while payload.len() < size {
+        payload.push_str(unit);
+    }
+    let mut lis = match Listener::bind(tr).await {
+        Ok(l) => l,
+        Err(e) => return json!({"verdict": "harness-error", "why": format!("bind: {e}")}),
+    };
+    let ep = lis.endpoint.clone();
+    let pw = lis.ssh_password.clone();
+    let p2 = payload.clone();
+    let cl = tokio::spawn(async move {
+        async fn go<T: netconf::transport::Transport + 'static>(s: Result<Session<T>, netconf::Error>, payload: String) -> Value {
+            let mut s = match s {
+                Ok(s) => s,
+                Err(e) => return json!({"establish": format!("{e:?}")}),
+            };
+            let to = Duration::from_secs(8);
+            let big = match tokio::time::timeout(to, s.rpc::<LoadConfiguration<Config<String, Text, Merge>>, _>(|b| b.source(Config::new(payload, Text, Merge)).finish())).await {
+                Ok(Ok(f)) => match tokio::time::timeout(to, f).await {
+                    Ok(Ok(())) => "ok".to_string(),
+                    Ok(Err(e)) => format!("err:{e:?}"),
+                    Err(_) => "reply-timeout".into(),
+                },
+                Ok(Err(e)) => format!("send-err:{e:?}"),
+                Err(_) => "send-timeout".into(),
+            };
+            let small = match tokio::time::timeout(to, async {
+                let f = s.rpc::<Get, _>(|b| b.finish()).await?;
+                f.await
+            })
+            .await
+            {
+                Ok(Ok(v)) => format!("ok:{v}"),
+                Ok(Err(e)) => format!("err:{e:?}"),
+                Err(_) => "timeout".into(),
+            };
+            json!({"establish": "ok", "big": big, "small": small})
+        }
+        let to = Duration::from_secs(6);
+        match (tr, ep) {
+            (Tr::Tls, Endpoint::Tcp(p)) => match tokio::time::timeout(to, connect_tls(p)).await {
+                Ok(s) => go(s, p2).await,
+                Err(_) => json!({"establish": "TIMEOUT"}),
+            },
+            (Tr::Ssh, Endpoint::Tcp(p)) => match tokio::time::timeout(to, Session::ssh(("127.0.0.1", p), "vh".to_string(), pw.parse().unwrap())).await {
+                Ok(s) => go(s, p2).await,
+                Err(_) => json!({"establish": "TIMEOUT"}),
+            },
+            (Tr::Cli, Endpoint::Unix(path)) => {
+                let exe = std::env::current_exe().unwrap().to_string_lossy().into_owned();
+                let p = path.to_string_lossy().into_owned();
+                match tokio::time::timeout(to, Session::verif_junos_local(&exe, &["fake-cli", &p])).await {
+                    Ok(s) => go(s, p2).await,
+                    Err(_) => json!({"establish": "TIMEOUT"}),
+                }
+            }
+            _ => json!({"establish": "harness"}),
+        }
+    });
+    let mut conn = match tokio::time::timeout(Duration::from_secs(8), lis.accept()).await {
+        Ok(Ok(c)) => c,
+        other => return json!({"verdict": "harness-error", "why": format!("accept: {:?}", other.map(|r| r.map(|_| ())))}),
+    };
+    let _ = conn.send_unit(&hello).await;
+    let mut from_client = Vec::new();
+    // client hello + the large request
+    let got_big = conn.read_messages(&mut from_client, 2, Duration::from_secs(6)).await;
+    let have = crate::realwire::delimiter_ends(&from_client).len();
+    let mut symptoms: Vec<String> = Vec::new();
+    if have >= 2 {
+        let _ = conn.send_unit(format!("<rpc-reply xmlns=\"{}\" message-id=\"1\"><load-configuration-results><ok/></load-configuration-results></rpc-reply>{MARKER}", crate::memwire::BASE_NS).as_bytes()).await;
+        let _ = conn.read_messages(&mut from_client, 3, Duration::from_secs(6)).await;
+        let _ = conn.send_unit(&reply_bytes(2, "tag-2", 0, false)).await;
+    }
+    let out = tokio::time::timeout(Duration::from_secs(30), cl).await.ok().and_then(Result::ok).unwrap_or(json!({"establish": "client task lost"}));
+    conn.close(CloseManner::Clean).await;
+    if out["establish"] != "ok" {
+        return json!({"verdict": "not-exercised", "why": format!("setup: {out}")});
+    }
+    let ends = crate::realwire::delimiter_ends(&from_client);
+    let trailing = from_client.len() - ends.last().copied().unwrap_or(0);
+    if ends.len() < 3 || trailing != 0 || !got_big {
+        symptoms.push(format!("peer-received-{}-delimited-messages-and-{}-undelimited-bytes-instead-of-3-messages", ends.len().min(3), if trailing == 0 { "0" } else { "some" }));
+    }
+    if ends.len() >= 2 {
+        let msg = &from_client[ends[0]..ends[1] - MARKER.len()];
+        match crate::xmlstrict::parse(msg) {
+            Err(e) => symptoms.push(format!("large-request-not-well-formed({})", crate::util::clip(&e.msg, 60))),
+            Ok(doc) => match doc.root.path(&["load-configuration", "configuration-text"]) {
+                Some(el) if el.text() == payload => {}
+                Some(el) => symptoms.push(format!("large-payload-changed(received {} of {} bytes)", el.text().len(), payload.len())),
+                None => symptoms.push("large-request-without-payload-element".into()),
+            },
+        }
+    }
+    if ends.len() >= 3 {
+        let msg = &from_client[ends[1]..ends[2] - MARKER.len()];
+        if crate::xmlstrict::parse(msg).is_err() {
+            symptoms.push("request-after-the-large-one-not-well-formed".into());
+        }
+    }
+    json!({"verdict": if symptoms.is_empty() { "held" } else { "violated" }, "symptoms": symptoms, "client": out, "bytes_received": from_client.len(), "payload_bytes": payload.len()})
 }
